@@ -229,6 +229,10 @@ def apply_rules(text, rules, unit_name="?"):
     """rules: list of (regex, replacement, min_count[, flags]).  Returns (text, fired)."""
     fired = []
     for r in rules:
+        if callable(r[0]):          # whole-text transformer (e.g. C++ reference locals -> pointers)
+            text = r[0](text)
+            fired.append((getattr(r[0], "__name__", "callable"), 1))
+            continue
         rx, rp, mn = r[0], r[1], r[2]
         fl = r[3] if len(r) > 3 else 0
         text, n = re.subn(rx, rp, text, flags=fl)
@@ -247,6 +251,29 @@ def check_deny(text, unit_name, allow=()):
         if m:
             ctx = masked[max(0, m.start() - 40):m.end() + 40].replace("\n", " ")
             raise ExtractionError("%s: leftover C++ token (%s) after rewriting: ...%s..." % (unit_name, what, ctx))
+
+
+def cxx_refs_to_pointers(text):
+    """'T &name = lvalue;' -> 'T *name_ = &(lvalue);' and every later use of name inside the enclosing block -> (*name_)."""
+    rx = re.compile(r"\b(double|int|unsigned int|bool|float) &(\w+) = ([^;]+);")
+    while True:
+        m = rx.search(text)
+        if not m:
+            return text
+        name = m.group(2)
+        decl = "%s *%s_ = &(%s);" % (m.group(1), name, m.group(3))
+        # end of the enclosing block
+        d, j = 0, m.end()
+        while j < len(text):
+            if text[j] == "{":
+                d += 1
+            elif text[j] == "}":
+                if d == 0:
+                    break
+                d -= 1
+            j += 1
+        scope = re.sub(r"\b%s\b" % re.escape(name), "(*%s_)" % name, text[m.end():j])
+        text = text[:m.start()] + decl + scope + text[j:]
 
 
 # rules shared by many units
